@@ -303,6 +303,10 @@ class NeedChoice(Exception):
         self.blind = blind  # the construct is consumed without its first token being inspected: only empty / non-empty matters
 
 
+class NeedFollow(Exception):
+    """The code looks at the token(s) after the construct: which follow context?"""
+
+
 class NeedVariant(Exception):
     """The value of an unexpanded marker is needed: which of the result shapes its contract allows?"""
 
@@ -401,6 +405,29 @@ class GX:
                 return f"Marker<{self.mark.nt}:{self.mark.first}>"
 
         self.MarkerTok = MarkerTok
+
+        class FollowTok(Token):
+            """A token after the construct whose type is decided only when the code looks at it."""
+            __slots__ = ("ctx", "k")
+
+            def __init__(self, ctx, k, column):
+                object.__setattr__(self, "ctx", ctx)
+                object.__setattr__(self, "k", k)
+                object.__setattr__(self, "lineno", 1)
+                object.__setattr__(self, "column", column)
+
+            @property
+            def type(self):
+                if self.ctx["follow"] is None:
+                    raise NeedFollow()
+                f = self.ctx["follow"]
+                return f[self.k] if self.k < len(f) else "EOF!"
+
+            @property
+            def value(self):
+                return gx.spelling(self.type) if self.ctx["follow"] is not None else "<follow>"
+
+        self.FollowTok = FollowTok
         self.g: Grammar = make_grammar(self)
         self.g.analyse()
         self.token_types = self._all_token_types()
@@ -589,8 +616,14 @@ class GX:
 
         walk(root)
         n_form = len(toks)
-        for ft in follow:
-            toks.append(self.Token(ft, self.spelling(ft, len(toks)), 1, len(toks) + 1) if ft else None)
+        if isinstance(follow, dict):
+            # lazily decided follow context {"follow": None | tuple}: up to two tokens, then end of input
+            f = follow["follow"]
+            for k in range(2 if f is None else len(f)):
+                toks.append(self.FollowTok(follow, k, len(toks) + 1))
+        else:
+            for ft in follow:
+                toks.append(self.Token(ft, self.spelling(ft, len(toks)), 1, len(toks) + 1) if ft else None)
         toks.append(None)
         return toks, nodes, n_form
 
@@ -963,7 +996,7 @@ class Run:
         self.root_is_self = (own == self.method)
         p = object.__new__(gx.CParser)
         p.clex = FakeLexer("f.c")
-        p._scope_stack = [dict()]
+        p._scope_stack = [dict() for _ in range(getattr(gx, "scope_depth", 1))]
         for t in self.toks:
             if t is not None and not hasattr(t, "mark") and t.type == "TYPEID":
                 p._scope_stack[0][t.value] = True
@@ -994,7 +1027,7 @@ class Run:
         gx.stats["runs"] += 1
         try:
             res = fn(p, *self.args, **self.kwargs)
-        except (NeedExpand, NeedChoice, NeedVariant):
+        except (NeedExpand, NeedChoice, NeedVariant, NeedFollow):
             raise
         except gx.ParseError as e:
             if errs:
@@ -1066,48 +1099,57 @@ REAL_HELPERS = {"_parse_any_declarator", "_parse_array_decl", "_parse_abstract_a
 REAL_RECURSIVE = {"_parse_binary_expression"}
 
 
-def explore(gx: GX, method: str, nt: str, prod: Prod, flat, shape, follow: List[str], args=(), kwargs=None,
+def explore(gx: GX, method: str, nt: str, prod: Prod, flat, shape, follow, args=(), kwargs=None,
             real=(), on_done=None, budget=4000):
-    """Run `method` on every lazy refinement (first-token choices, marker expansions) of one flat production.
-    Calls on_done(outcome) for every completed run.  Returns (number of runs, list of notes)."""
-    notes = []
-    root = gx.instantiate(prod, flat, shape, 0)
+    """Run `method` on every lazy refinement (first-token choices, marker expansions, result shapes, follow contexts) of one
+    flat production.  `follow` is a list of token types, or a list of candidate follow tuples to be chosen lazily
+    (only when the code looks beyond the construct).  Calls on_done(outcome) per completed run."""
     import collections
 
-    work = collections.deque([root])
+    notes = []
+    root = gx.instantiate(prod, flat, shape, 0)
+    lazy = bool(follow) and isinstance(follow[0], tuple) or follow == [()]
+    cands = list(follow) if lazy else None
+    work = collections.deque([(root, None if lazy else list(follow))])
     runs = 0
     while work:
-        tree = work.popleft()  # breadth first: shallow refinements before deep ones
+        tree, fol = work.popleft()  # breadth first: shallow refinements before deep ones
         runs += 1
         if runs > budget:
             notes.append(f"budget of {budget} runs exhausted for {prod.label}")
             break
-        run = Run(gx, method, tree, follow, args, kwargs, real)
+        fctx = {"follow": fol} if lazy else fol
+        run = Run(gx, method, tree, fctx, args, kwargs, real)
+        run.follow_used = fol
+
+        def fork(mutate):
+            memo = {}
+            t2 = clone_tree(tree, memo)
+            mutate(memo)
+            work.append((t2, fol))
         try:
             oc = run.execute()
+        except NeedFollow:
+            for c in cands:
+                work.append((clone_tree(tree, {}), tuple(c)))
+            continue
         except NeedVariant as e:
             m = e.mark
             nvar = len(gx.g.nts[m.nt].value_variants)
             # one non-default result shape per run (each slot is varied in turn)
             already = any(isinstance(x, Mark) and x.variant for x in _walk(tree))
             for k in range(nvar if not already else 1):
-                memo = {}
-                t2 = clone_tree(tree, memo)
-                memo[id(m)].variant = k
-                work.append(t2)
+                fork(lambda memo, k=k: setattr(memo[id(m)], "variant", k))
             continue
         except NeedChoice as e:
             m = e.mark
-            cands = gx.class_reps(gx.g.first[m.nt])
+            cs = gx.class_reps(gx.g.first[m.nt])
             if getattr(e, "blind", False):
-                cands = cands[:1]
+                cs = cs[:1]
             if gx.g.nullable[m.nt]:
-                cands = cands + [""]
-            for c in cands:
-                memo = {}
-                t2 = clone_tree(tree, memo)
-                memo[id(m)].first = c
-                work.append(t2)
+                cs = cs + [""]
+            for c in cs:
+                fork(lambda memo, c=c: setattr(memo[id(m)], "first", c))
             continue
         except NeedExpand as e:
             m = e.mark
@@ -1115,12 +1157,9 @@ def explore(gx: GX, method: str, nt: str, prod: Prod, flat, shape, follow: List[
                 notes.append(f"expansion depth limit at <{m.nt}> in {prod.label}")
                 continue
             if m.first is None:
-                cands = gx.class_reps(gx.g.first[m.nt])
-                for c in cands + ([""] if gx.g.nullable[m.nt] else []):
-                    memo = {}
-                    t2 = clone_tree(tree, memo)
-                    memo[id(m)].first = c
-                    work.append(t2)
+                cs = gx.class_reps(gx.g.first[m.nt])
+                for c in cs + ([""] if gx.g.nullable[m.nt] else []):
+                    fork(lambda memo, c=c: setattr(memo[id(m)], "first", c))
                 continue
             n_exp = 0
             for p2 in gx.g.nts[m.nt].prods:
@@ -1132,7 +1171,7 @@ def explore(gx: GX, method: str, nt: str, prod: Prod, flat, shape, follow: List[
                         memo = {}
                         t2 = clone_tree(tree, memo)
                         _replace(t2, memo[id(m)], grp)
-                        work.append(t2)
+                        work.append((t2, fol))
                         n_exp += 1
             if n_exp == 0:
                 notes.append(f"<{m.nt}> with first token {m.first} has no expansion")
